@@ -1002,16 +1002,25 @@ class FnLower:
             if pt[0] != 'rec': self.unsupported('std::make_unique of %s' % (pt,))
             rec = pt[1]; ctors = []
             for m in rec.get('inner', []):
-                cs = [m] if m.get('kind') == 'CXXConstructorDecl' else [x for x in m.get('inner', []) if x.get('kind') == 'CXXConstructorDecl'] if m.get('kind') == 'FunctionTemplateDecl' else []
+                cs = [m] if m.get('kind') == 'CXXConstructorDecl' else [x for x in m.get('inner', []) if x.get('kind') == 'CXXConstructorDecl' and any(a.get('kind') == 'TemplateArgument' for a in x.get('inner', []))] if m.get('kind') == 'FunctionTemplateDecl' else []   # instantiations only, not the template pattern
                 for c in cs:
                     if self.idx.defn.get(c['id']) is None: continue
                     ps = [p for p in c.get('inner', []) if p.get('kind') == 'ParmVarDecl']
                     if len(ps) != len(args): continue
-                    def base(t): return norm(re.sub(r'&+$', '', t.strip()))
-                    if all(base(qt(p['type'])) == base(qt(a['type'])) for p, a in zip(ps, args)): ctors.append(c)
+                    ctors.append(c)
+            if len(ctors) > 1:
+                # several constructors of that arity: the parameter types decide (arrays decay to pointers)
+                def base(t): return norm(re.sub(r'\[\d*\]$', '*', re.sub(r'&+$', '', t.strip())))
+                ctors = [c for c in ctors if all(base(qt(p['type'])) == base(qt(a['type'])) for p, a in zip([p for p in c.get('inner', []) if p.get('kind') == 'ParmVarDecl'], args))]
             if len(ctors) != 1: self.unsupported('std::make_unique<%s>: %d constructors fit the arguments' % (ret_t[1], len(ctors)))
             ct = L.ctype_of(pt); p = self.tmp('_new')
-            cargs = self.call_args(ctors[0], args)
+            # arguments are forwarded: an array (string literal) bound to a pointer parameter decays
+            prm = [q for q in ctors[0].get('inner', []) if q.get('kind') == 'ParmVarDecl']
+            cargs = []
+            for q, a in zip(prm, args):
+                a0 = self.strip_casts(a)
+                if a0.get('kind') == 'StringLiteral' and not L.is_ref(q['type']): cargs.append(a0['value'])
+                else: cargs.append(self.operands([('addr' if L.is_ref(q['type']) else 'rv', a)])[0])
             self.emit('%s * %s = (%s *)malloc(sizeof(%s)); /* std::make_unique */' % (ct, p, ct, ct))
             self.emit('%s(%s);' % (L.need_fn(ctors[0]['id']), ', '.join([p] + cargs)))
             if L.fn_may_throw(ctors[0]): self.check()
@@ -1300,6 +1309,13 @@ class FnLower:
         while st[0] == 'alias': st = L.tparse(st[1])
         if tt[0] == 'model' and st[0] == 'model' and tt[1] == st[1]:
             return ptr_text     # e.g. ostringstream -> ostream: one model type
+        if st[0] == 'rec' and tt[0] == 'uptr' and ck in ('DerivedToBase', 'UncheckedDerivedToBase'):
+            # a class derived from std::unique_ptr<T> (lifetime_monitor_modifier): the base subobject is the owning pointer itself
+            for bk, (b, br) in enumerate(self.idx.bases(st[1])):
+                if br is None:
+                    bt = L.tinfo(b['type'])
+                    if bt[0] == 'uptr' and norm(bt[1]) == norm(tt[1]): return '(&(%s)->_b%d)' % (ptr_text, bk)
+            self.unsupported('unique_ptr base not found')
         if tt[0] != 'rec' or st[0] != 'rec':
             # base that is a std model (e.g. unique_ptr base of lifetime_monitor_modifier)
             self.unsupported('base cast between %s and %s' % (st[0], tt[0]))
